@@ -1,5 +1,6 @@
 """C15 - disabled contracts are absent; enabled ones do not depend on interpreter mode."""
 import json
+import directed
 import os
 import subprocess
 import sys
@@ -80,7 +81,12 @@ def _children():
     return _CACHE
 
 
+run_directed = directed.run
+
+
 def cases(tier, rng):
+    for c in directed.disabled_invariant_is_absent_cases():
+        yield "directed-disabled-invariant-is-absent", c
     for m in MODES:
         for e in ENVS:
             for deco in ("require", "ensure", "snapshot", "snapshotOverOld", "invariant", "requireOnChecker", "ensureOnChecker"):
